@@ -371,3 +371,34 @@ def gen_bump(d, vast, state):
     if d.chance(1, 8):
         flags["pin_date"] = True
     return flags, date.isoformat()
+
+
+# =========================================================================== legacy (brace pattern) projects, fixed text
+
+LEGACY = [("{pycalver}", "v202010.1001-beta", "202010.1001b0"), ("{pycalver}", "v201812.0033", "201812.33"),
+          ("{semver}", "1.2.3", "1.2.3"), ("v{year}{month}{build}{release}", "v202011.1002-rc", "202011.1002rc0"),
+          ("{year}{build}{release}", "2020.1003", "2020.1003")]
+
+
+def gen_legacy_project(d, regimes=("lf", "lf", "crlf"), max_files=5, max_patterns=3):
+    """same layout generator, but occurrences carry their (old) text; {version} and {pep440_version} patterns only.
+    -> (spec, flags, date)"""
+    import datetime as dt
+    from harness import grammar
+    vp, old, pep = d.choice(LEGACY)
+    spec = gen_project(d, [["part", "MAJOR"]], grammar.state_from(dt.date(2020, 1, 1)), pep_shaped=True, max_files=max_files,
+                       max_patterns=max_patterns, regimes=list(regimes), allow_partial=False, allow_glob=False)
+    for p in spec["patterns"]:
+        if p["kind"] == "pep":
+            p["raw"] = p["d1"] + "{pep440_version}" + p["d2"]
+            p["text"] = p["d1"] + pep + p["d2"]
+        else:
+            p["kind"] = "version"
+            p["raw"] = p["d1"] + "{version}" + p["d2"]  # legacy patterns have no optional groups: brackets are plain text
+            p["text"] = p["d1"] + old + p["d2"]
+        p["ast"] = None
+    spec["pattern_text"] = vp
+    spec["old_text"] = old
+    spec["bystanders"] = []
+    spec["legacy"] = True
+    return spec, {"patch": vp == "{semver}"}, "2021-03-04"
